@@ -163,10 +163,12 @@ var ErrHSM = errors.New("verif: injected HSM failure")
 // HSM stands for a remote key: a real key behind a crypto.Signer whose
 // return value can be failed, mangled, or chosen.
 type HSM struct {
-	Key  crypto.Signer
-	Mode string // "", "err", "badDER", "trailing", "negative", "oversize", "chosen"
-	R, S *big.Int
-	N    int // calls
+	Key crypto.Signer
+	// Calls, when non-nil, counts Sign calls (only set where the stub is not
+	// shared between tasks).
+	Calls *int
+	Mode  string // "", "err", "empty", "badDER", "trailing", "negative", "oversize", "chosen"
+	R, S  *big.Int
 }
 
 func (h *HSM) Public() crypto.PublicKey { return h.Key.Public() }
@@ -174,12 +176,17 @@ func (h *HSM) Public() crypto.PublicKey { return h.Key.Public() }
 type rs struct{ R, S *big.Int }
 
 func (h *HSM) Sign(rand io.Reader, digest []byte, opts crypto.SignerOpts) ([]byte, error) {
-	h.N++
+	if h.Calls != nil {
+		*h.Calls++
+	}
 	switch h.Mode {
 	case "err":
 		return nil, ErrHSM
 	case "chosen":
 		return asn1.Marshal(rs{h.R, h.S})
+	case "empty":
+		// a device that reports success and hands back nothing
+		return []byte{}, nil
 	}
 	sig, err := h.Key.Sign(rand, digest, opts)
 	if err != nil {
